@@ -164,6 +164,8 @@ type FuncVC struct {
 	deferKeys []Term
 	allocs []*ssa.Alloc
 	subSeen map[string]bool
+	freshList []Term
+	entryRefs []Term
 	curPos token.Pos
 	inlinedFns map[string]bool
 	inlineOuter []savedBlockLoops
@@ -763,7 +765,14 @@ func (vc *FuncVC) freshRef(s *State, hint string) Term {
 	al := vc.get(s, "alloc", "(Array Int Bool)")
 	vc.assume(tTrue, T("Bool", fmt.Sprintf("(> %s 0)", r.S)))
 	vc.assume(s.pc, not(app("Bool", "select", al, r)))
+	// allocation only grows, so r was not allocated at function entry either (stated directly: no
+	// quantified monotonicity axiom is needed for the frame conditions)
+	al0 := vc.get(vc.init, "alloc", "(Array Int Bool)")
+	if al0.S != al.S {
+		vc.assume(s.pc, not(app("Bool", "select", al0, r)))
+	}
 	s.vars["alloc"] = app("(Array Int Bool)", "store", al, r, tTrue)
 	vc.fresh[r.S] = true
+	vc.freshList = append(vc.freshList, r)
 	return r
 }
